@@ -106,6 +106,17 @@ func airtimeEvent(sf, bw, cr, pre int, hdr, ldro bool) M {
 	nsym := make([]int, 256)
 	air := make([]interface{}, 256)
 	status := ""
+	// sizes beyond one octet are asked first (their answers are not part of the event): a call history must not
+	// change what the sizes 0..255 give afterwards
+	for pl := 256; pl < 1024; pl += 1 + (pl-256)/256 {
+		observeFast(func() error {
+			if _, err := airtime.CalculateLoRaPayloadSymbolNumber(pl, sf, airtime.CodingRate(cr), hdr, ldro); err != nil {
+				return err
+			}
+			_, err := airtime.CalculateLoRaAirtime(pl, sf, bw, pre, airtime.CodingRate(cr), hdr, ldro)
+			return err
+		})
+	}
 	for pl := 0; pl < 256; pl++ {
 		var n int
 		var d time.Duration
